@@ -495,13 +495,15 @@ func (m *Manager) acquireTasks(envId uid.ID, taskDescriptors Descriptors) (err e
 	undeployableCriticalDescriptors := make(Descriptors, 0)
 
 	deployedTasks := make(DeploymentMap)
+	// locked here and not only when something is to be launched: the matching Unlock below
+	// is unconditional, and with every descriptor satisfied by a reused task it used to
+	// unlock a mutex that was never locked (fatal error)
+	m.deployMu.Lock()
 	if len(tasksToRun) > 0 {
 		// Alright, so we have some descriptors whose requirements should be met with
 		// new Tasks we're about to deploy here.
 		// First we ask Mesos to revive offers and block until done, then upon receiving
 		// the offers, we ask Mesos to run the required roles - if any.
-
-		m.deployMu.Lock()
 
 	DEPLOYMENT_ATTEMPTS_LOOP:
 		for attemptCount := 0; attemptCount < MAX_ATTEMPTS_PER_DEPLOY_REQUEST; attemptCount++ {
